@@ -26,7 +26,8 @@ func init() {
 			"(U5) every return with a nil error / normal result of these functions is dominated by the normal exit of the loop over the update list (or is taken under an empty-list test), and the loop has no break: no shortcut skips the scan. " +
 			"The rules look through unexported helpers, predicate helpers, boolean locals, pointer aliases, merged / inverted / switch-form guards, index loops and renamed locals, and through calls of function values: a function-typed parameter (or single-definition local) is followed to the method value, function name or function literal bound at the call site, and the callee is evaluated with that value bound (receiver / captured variables read where the value was formed). " +
 			"Also understood: loops left through a condition variable or a break with the error pending (`err = X; leave; … return err` is read as `return X`, and the store of the pending list is then decided for err == nil / err != nil); partition-then-apply (a helper that returns the in-time and the later list, each verified by the partition rule, whichever way `not after` is spelled); element updates as field stores through the index, through an element pointer, or as copy / modify / store-back of the whole element (the copy must start from the very element, every field assignment must precede the store, the store must be unconditional); range tests over converted operands and `len-1` (an unsigned comparison with len-1 is recognised and rejected: it passes every index for an empty list). " +
-			"NOT decided: composability t1 then t2 and geometry equality as values; which error type reports an out-of-range index; callback iterators whose callback itself classifies the update by time (the classification is then inside the callee of a loop that does not test t: reported, not passed), partition results carried in a struct instead of a tuple, `for {}` loops with a hand-written index test; function values that are stored in fields, returned from calls or assigned more than once (the call is then opaque: an effect whose callee is unknown, and the API anchor or the apply obligation fails instead of passing); which children were already changed when ApplyUpdatesUpTo returns an error; behaviour of callers outside package osm.",
+			"Allocation-motivated forms are understood too: the pending / result list allocated on first use (`X = <empty list>` only where X is known to be still empty) or sized by a counting pre-pass (a loop whose only effect is an increment handles nothing: it is no candidate for the pending / apply roles and its exit does not complete the scan; an early return under `count == 0` is accepted when the count — a counter, a counting helper, or len minus such a count — is the number of updates at or before t). " +
+			"NOT decided: composability t1 then t2 and geometry equality as values; which error type reports an out-of-range index; pending lists filled by index (`X[k] = u; k++`) or carved from a shared backing array with three-index slices (reported as not `X = append(X, u)`), callback iterators whose callback itself classifies the update by time (the classification is then inside the callee of a loop that does not test t: reported, not passed), partition results carried in a struct instead of a tuple, `for {}` loops with a hand-written index test; function values that are stored in fields, returned from calls or assigned more than once (the call is then opaque: an effect whose callee is unknown, and the API anchor or the apply obligation fails instead of passing); which children were already changed when ApplyUpdatesUpTo returns an error; behaviour of callers outside package osm.",
 		Assumptions: []string{"go/types, go/cfg (x/tools v0.29.0)", "semantics of time.Time.After/Before/Equal/Compare", "orb.Point is [2]float64", "static calls inside package osm resolve to the declared function; a function-typed parameter holds the value bound at the call site being followed"},
 		LevelText:   "Structural necessary conditions of the update-application semantics, decided by evaluating the CFG of every time-bounded scan of an osm.Updates list for the abstract inputs {Timestamp before, equal, after t} x {Index in range, out of range} x {Reverse true, false}: skip-not-stop on too-late updates, inclusive bound, pending list kept in order and stored back, in-time updates applied with error propagation, index guard, out-of-range reported, field copy agreement, orientation flip, geometry slots, no success exit before the scan completed. Value-level composability and geometry equality are not decided.",
 		LevelNote:   "Trusts the Go type checker and go/cfg; semantics of time.Time comparisons; rules cover package osm only (the loops the property names). Helpers are followed through static calls to depth 4; anything else is reported as undecided.",
@@ -66,8 +67,8 @@ func init() {
 			{Name: "rel-early-success", File: "relation.go", Find: "func (r *Relation) ApplyUpdatesUpTo(t time.Time) error {\n", Replace: "func (r *Relation) ApplyUpdatesUpTo(t time.Time) error {\n\tif t.Before(r.Timestamp) {\n\t\treturn nil\n\t}\n", ExpectRule: "U5", ExpectConstruct: "complete@(*Relation).ApplyUpdatesUpTo"},
 			{Name: "lsat-early-result", File: "way.go", Find: "func (w *Way) LineStringAt(t time.Time) orb.LineString {\n", Replace: "func (w *Way) LineStringAt(t time.Time) orb.LineString {\n\tif t.Before(w.Timestamp) {\n\t\treturn w.LineString()\n\t}\n", ExpectRule: "U5", ExpectConstruct: "complete@(*Way).LineStringAt"},
 			{Name: "way-first-only", File: "way.go", Find: "\t\tif err := w.applyUpdate(u); err != nil {\n\t\t\treturn err\n\t\t}\n\t}", Replace: "\t\treturn w.applyUpdate(u)\n\t}", ExpectRule: "U5", ExpectConstruct: "complete@(*Way).ApplyUpdatesUpTo"},
-		}, append(append(append([]core.Mutant{}, c15Mutants2...), c15Mutants3...), c15Mutants4...)...),
-		Benign: append(append(append(append([]core.Mutant{}, c15Benign...), c15Benign2...), c15Benign3...), c15Benign4...),
+		}, append(append(append(append([]core.Mutant{}, c15Mutants2...), c15Mutants3...), c15Mutants4...), c15Mutants5...)...),
+		Benign: append(append(append(append(append([]core.Mutant{}, c15Benign...), c15Benign2...), c15Benign3...), c15Benign4...), c15Benign5...),
 	})
 }
 
